@@ -110,13 +110,20 @@ func (f *frame) alloc(st *State, a *ssa.Alloc) Val {
 	ex := f.ex
 	et := a.Type().(*types.Pointer).Elem()
 	if n, ok := heapStructName(et); ok && a.Heap && ex.prog.heapModelled(n) {
-		ref := ex.decls.fresh("new_"+n.Obj().Name(), SInt)
-		st.assume(tLe("0", ex.heapTop()))
-		st.assume(tLt(ex.heapTop(), ref))
-		for _, o := range st.fresh {
-			st.assume(tNe(ref, o))
+		var ref T
+		if ex.initMode {
+			// package initialisation starts from the empty heap: objects get concrete addresses
+			ex.initRefs++
+			ref = num(int64(ex.initRefs))
+		} else {
+			ref = ex.decls.fresh("new_"+n.Obj().Name(), SInt)
+			st.assume(tLe("0", ex.heapTop()))
+			st.assume(tLt(ex.heapTop(), ref))
+			for _, o := range st.fresh {
+				st.assume(tNe(ref, o))
+			}
+			st.fresh = append(st.fresh, ref)
 		}
-		st.fresh = append(st.fresh, ref)
 		u := n.Underlying().(*types.Struct)
 		for i := 0; i < u.NumFields(); i++ {
 			ex.heapStore(st, n, i, ref, zeroVal(ex, st, u.Field(i).Type()))
@@ -337,9 +344,9 @@ func (f *frame) strConcat(st *State, a, b VSlice) Val {
 	_ = i
 	m := st.mem[r.R][0]
 	st.assume(tForall("ci_", tImp(tAnd(tLe("0", "ci_"), tLt("ci_", a.Len)),
-		tEq(tSel(m, "ci_"), tSel(st.mem[a.R][0], tAdd(a.Off, "ci_"))))))
+		tEq(tSel(m, "ci_"), tSel(st.mem[a.R][0], tIdx(a.Off, "ci_"))))))
 	st.assume(tForall("ci_", tImp(tAnd(tLe("0", "ci_"), tLt("ci_", b.Len)),
-		tEq(tSel(m, tAdd(a.Len, "ci_")), tSel(st.mem[b.R][0], tAdd(b.Off, "ci_"))))))
+		tEq(tSel(m, tIdx(a.Len, "ci_")), tSel(st.mem[b.R][0], tIdx(b.Off, "ci_"))))))
 	return r
 }
 
@@ -430,12 +437,12 @@ func seqEqTerms(ex *Exec, st *State, a, b VSlice) T {
 			return "false"
 		}
 		for i, c := range a.Lit {
-			cs = append(cs, tEq(tSel(mb, tAdd(b.Off, num(int64(i)))), num(int64(c))))
+			cs = append(cs, tEq(tSel(mb, tIdx(b.Off, num(int64(i)))), num(int64(c))))
 		}
 		return tAnd(cs...)
 	}
 	return tAnd(tEq(a.Len, b.Len), tForall("qe_", tImp(tAnd(tLe("0", "qe_"), tLt("qe_", a.Len)),
-		tEq(tSel(ma, tAdd(a.Off, "qe_")), tSel(mb, tAdd(b.Off, "qe_"))))))
+		tEq(tSel(ma, tIdx(a.Off, "qe_")), tSel(mb, tIdx(b.Off, "qe_"))))))
 }
 
 func (f *frame) boundsOb(st *State, ins ssa.Instruction, idx, ln T) {
@@ -542,6 +549,9 @@ func (f *frame) fieldAddr(st *State, x *ssa.FieldAddr) Val {
 		}
 		st.assume(tNe(b.T, "0"))
 		f.lockAccess(st, b, x)
+		if in, ok := ex.embeddedType(b.St, x.Field); ok {
+			return VRef{embRef(b.T, x.Field), in}
+		}
 		return VFieldPtr{Ref: b.T, St: b.St, Field: x.Field}
 	case VCellPtr:
 		return VCellPtr{C: b.C, Path: append(append([]int(nil), b.Path...), x.Field)}
